@@ -697,6 +697,10 @@ namespace foonathan
 
                 virtual bool is_composable() const noexcept = 0;
 
+                // identifies the allocator behind the type erasure:
+                // the address of the referenced object if it is stateful, a per type tag otherwise
+                virtual const void* target() const noexcept = 0;
+
             protected:
                 enum class query
                 {
@@ -872,6 +876,22 @@ namespace foonathan
                 bool is_composable() const noexcept override
                 {
                     return composable::value;
+                }
+
+                const void* target() const noexcept override
+                {
+                    return target_impl(typename traits::is_stateful{});
+                }
+
+                const void* target_impl(std::true_type) const noexcept
+                {
+                    return &get();
+                }
+
+                const void* target_impl(std::false_type) const noexcept
+                {
+                    static const char type_tag = 0;
+                    return &type_tag;
                 }
 
                 std::size_t max(query q) const override
